@@ -14,3 +14,150 @@ Definition vector_lt_shape : N := 1%N.
 Definition munge_replacements : list (N * str) := [].
 Definition py_keywords : list str := [].
 Definition py_builtins : list str := [].
+
+(* ---- C20 (harness/tr/tr_numbers.py): copies of what the translator emits for the pinned tree ---- *)
+From Coq Require Import ZArith.
+
+Definition c20_num_normalize (R : Type) (binop : N -> R -> R -> R) (isinst : N -> R -> bool) (un : N -> R -> R) (fraction2 : R -> R -> R) (den_is_one : R -> bool) (try_zde : R -> R -> R) (ftest : N -> R -> bool) (fconst : N -> R) (v_result__in : R) : R :=
+  (let v_result := v_result__in in (if (andb (isinst 3%N v_result) (den_is_one v_result)) then (un 4%N v_result) else v_result)).
+
+Definition c20_num_add (R : Type) (binop : N -> R -> R -> R) (isinst : N -> R -> bool) (un : N -> R -> R) (fraction2 : R -> R -> R) (den_is_one : R -> bool) (try_zde : R -> R -> R) (ftest : N -> R -> bool) (fconst : N -> R) (v_x v_y : R) : R :=
+  (if (isinst 1%N v_x) then (c20_num_normalize R binop isinst un fraction2 den_is_one try_zde ftest fconst (if (isinst 2%N v_y) then (un 0%N (binop 0%N (un 1%N v_x) v_y)) else (binop 0%N v_x v_y)))
+   else (if (isinst 2%N v_x) then (c20_num_normalize R binop isinst un fraction2 den_is_one try_zde ftest fconst (let v_v := (binop 0%N v_x (un 2%N v_y)) in (if (isinst 1%N v_y) then (un 0%N v_v) else v_v)))
+   else (if (isinst 3%N v_x) then (c20_num_normalize R binop isinst un fraction2 den_is_one try_zde ftest fconst (if (isinst 2%N v_y) then (binop 0%N (un 2%N v_x) v_y) else (binop 0%N v_x v_y)))
+   else (c20_num_normalize R binop isinst un fraction2 den_is_one try_zde ftest fconst (binop 0%N v_x v_y))))).
+
+Definition c20_num_subtract (R : Type) (binop : N -> R -> R -> R) (isinst : N -> R -> bool) (un : N -> R -> R) (fraction2 : R -> R -> R) (den_is_one : R -> bool) (try_zde : R -> R -> R) (ftest : N -> R -> bool) (fconst : N -> R) (v_x v_y : R) : R :=
+  (if (isinst 1%N v_x) then (c20_num_normalize R binop isinst un fraction2 den_is_one try_zde ftest fconst (if (isinst 2%N v_y) then (un 0%N (binop 1%N (un 1%N v_x) v_y)) else (binop 1%N v_x v_y)))
+   else (if (isinst 2%N v_x) then (c20_num_normalize R binop isinst un fraction2 den_is_one try_zde ftest fconst (let v_v := (binop 1%N v_x (un 2%N v_y)) in (if (isinst 1%N v_y) then (un 0%N v_v) else v_v)))
+   else (if (isinst 3%N v_x) then (c20_num_normalize R binop isinst un fraction2 den_is_one try_zde ftest fconst (if (isinst 2%N v_y) then (binop 1%N (un 2%N v_x) v_y) else (binop 1%N v_x v_y)))
+   else (c20_num_normalize R binop isinst un fraction2 den_is_one try_zde ftest fconst (binop 1%N v_x v_y))))).
+
+Definition c20_num_multiply (R : Type) (binop : N -> R -> R -> R) (isinst : N -> R -> bool) (un : N -> R -> R) (fraction2 : R -> R -> R) (den_is_one : R -> bool) (try_zde : R -> R -> R) (ftest : N -> R -> bool) (fconst : N -> R) (v_x v_y : R) : R :=
+  (if (isinst 1%N v_x) then (c20_num_normalize R binop isinst un fraction2 den_is_one try_zde ftest fconst (if (isinst 2%N v_y) then (un 0%N (binop 2%N (un 1%N v_x) v_y)) else (binop 2%N v_x v_y)))
+   else (if (isinst 2%N v_x) then (c20_num_normalize R binop isinst un fraction2 den_is_one try_zde ftest fconst (let v_v := (binop 2%N v_x (un 2%N v_y)) in (if (isinst 1%N v_y) then (un 0%N v_v) else v_v)))
+   else (if (isinst 3%N v_x) then (c20_num_normalize R binop isinst un fraction2 den_is_one try_zde ftest fconst (if (isinst 2%N v_y) then (binop 2%N (un 2%N v_x) v_y) else (binop 2%N v_x v_y)))
+   else (c20_num_normalize R binop isinst un fraction2 den_is_one try_zde ftest fconst (binop 2%N v_x v_y))))).
+
+Definition c20_num_divide (R : Type) (binop : N -> R -> R -> R) (isinst : N -> R -> bool) (un : N -> R -> R) (fraction2 : R -> R -> R) (den_is_one : R -> bool) (try_zde : R -> R -> R) (ftest : N -> R -> bool) (fconst : N -> R) (v_x v_y : R) : R :=
+  (if (isinst 0%N v_x) then (c20_num_normalize R binop isinst un fraction2 den_is_one try_zde ftest fconst (if (isinst 0%N v_y) then (fraction2 v_x v_y) else (binop 3%N v_x v_y)))
+   else (if (isinst 1%N v_x) then (c20_num_normalize R binop isinst un fraction2 den_is_one try_zde ftest fconst (if (isinst 2%N v_y) then (un 0%N (binop 3%N (un 1%N v_x) v_y)) else (try_zde (binop 3%N v_x v_y) (if (ftest 0%N v_x) then (fconst 0%N) else (if (ftest 1%N v_x) then (fconst 1%N) else (un 6%N (fconst 1%N)))))))
+   else (if (isinst 2%N v_x) then (c20_num_normalize R binop isinst un fraction2 den_is_one try_zde ftest fconst (let v_v := (binop 3%N v_x (un 2%N v_y)) in (if (isinst 1%N v_y) then (un 0%N v_v) else v_v)))
+   else (if (isinst 3%N v_x) then (c20_num_normalize R binop isinst un fraction2 den_is_one try_zde ftest fconst (if (isinst 2%N v_y) then (binop 3%N (un 2%N v_x) v_y) else (binop 3%N v_x v_y)))
+   else (c20_num_normalize R binop isinst un fraction2 den_is_one try_zde ftest fconst (binop 3%N v_x v_y)))))).
+
+Definition c20_num_trunc (R : Type) (binop : N -> R -> R -> R) (isinst : N -> R -> bool) (un : N -> R -> R) (fraction2 : R -> R -> R) (den_is_one : R -> bool) (try_zde : R -> R -> R) (ftest : N -> R -> bool) (fconst : N -> R) (v_x : R) : R :=
+  (if (isinst 1%N v_x) then (un 0%N (un 3%N v_x))
+   else (if (isinst 2%N v_x) then (un 1%N (un 3%N v_x))
+   else (if (isinst 3%N v_x) then (let v_v := (un 5%N (un 3%N v_x)) in (if (den_is_one v_v) then (un 4%N v_v) else v_v))
+   else (un 3%N v_x)))).
+
+Definition c20_num_to_decimal_shape : N := 1%N. (* 1 = Fraction -> Decimal(n)/Decimal(d); anything else -> Decimal(x) *)
+
+Definition c20_core_add2 (R : Type) (lit : Z -> R) (call : str -> list R -> R) (ifte : R -> R -> R -> R) (bind : R -> (R -> R) -> R) (v_x v_y : R) : R :=
+  (call [98%N; 97%N; 115%N; 105%N; 108%N; 105%N; 115%N; 112%N; 46%N; 108%N; 97%N; 110%N; 103%N; 46%N; 110%N; 117%N; 109%N; 98%N; 101%N; 114%N; 115%N; 47%N; 97%N; 100%N; 100%N] [v_x; v_y]).
+
+Definition c20_core_sub1 (R : Type) (lit : Z -> R) (call : str -> list R -> R) (ifte : R -> R -> R -> R) (bind : R -> (R -> R) -> R) (v_x : R) : R :=
+  (call [111%N; 112%N; 101%N; 114%N; 97%N; 116%N; 111%N; 114%N; 47%N; 110%N; 101%N; 103%N] [v_x]).
+
+Definition c20_core_sub2 (R : Type) (lit : Z -> R) (call : str -> list R -> R) (ifte : R -> R -> R -> R) (bind : R -> (R -> R) -> R) (v_x v_y : R) : R :=
+  (call [98%N; 97%N; 115%N; 105%N; 108%N; 105%N; 115%N; 112%N; 46%N; 108%N; 97%N; 110%N; 103%N; 46%N; 110%N; 117%N; 109%N; 98%N; 101%N; 114%N; 115%N; 47%N; 115%N; 117%N; 98%N; 116%N; 114%N; 97%N; 99%N; 116%N] [v_x; v_y]).
+
+Definition c20_core_mul2 (R : Type) (lit : Z -> R) (call : str -> list R -> R) (ifte : R -> R -> R -> R) (bind : R -> (R -> R) -> R) (v_x v_y : R) : R :=
+  (call [98%N; 97%N; 115%N; 105%N; 108%N; 105%N; 115%N; 112%N; 46%N; 108%N; 97%N; 110%N; 103%N; 46%N; 110%N; 117%N; 109%N; 98%N; 101%N; 114%N; 115%N; 47%N; 109%N; 117%N; 108%N; 116%N; 105%N; 112%N; 108%N; 121%N] [v_x; v_y]).
+
+Definition c20_core_div1 (R : Type) (lit : Z -> R) (call : str -> list R -> R) (ifte : R -> R -> R -> R) (bind : R -> (R -> R) -> R) (v_x : R) : R :=
+  (call [98%N; 97%N; 115%N; 105%N; 108%N; 105%N; 115%N; 112%N; 46%N; 108%N; 97%N; 110%N; 103%N; 46%N; 110%N; 117%N; 109%N; 98%N; 101%N; 114%N; 115%N; 47%N; 100%N; 105%N; 118%N; 105%N; 100%N; 101%N] [(lit (1)%Z); v_x]).
+
+Definition c20_core_div2 (R : Type) (lit : Z -> R) (call : str -> list R -> R) (ifte : R -> R -> R -> R) (bind : R -> (R -> R) -> R) (v_x v_y : R) : R :=
+  (call [98%N; 97%N; 115%N; 105%N; 108%N; 105%N; 115%N; 112%N; 46%N; 108%N; 97%N; 110%N; 103%N; 46%N; 110%N; 117%N; 109%N; 98%N; 101%N; 114%N; 115%N; 47%N; 100%N; 105%N; 118%N; 105%N; 100%N; 101%N] [v_x; v_y]).
+
+Definition c20_core_quot (R : Type) (lit : Z -> R) (call : str -> list R -> R) (ifte : R -> R -> R -> R) (bind : R -> (R -> R) -> R) (v_num v_div : R) : R :=
+  (call [98%N; 97%N; 115%N; 105%N; 108%N; 105%N; 115%N; 112%N; 46%N; 108%N; 97%N; 110%N; 103%N; 46%N; 110%N; 117%N; 109%N; 98%N; 101%N; 114%N; 115%N; 47%N; 116%N; 114%N; 117%N; 110%N; 99%N] [(call [47%N] [v_num; v_div])]).
+
+Definition c20_core_rem (R : Type) (lit : Z -> R) (call : str -> list R -> R) (ifte : R -> R -> R -> R) (bind : R -> (R -> R) -> R) (v_num v_div : R) : R :=
+  (bind (call [45%N] [v_num; (call [42%N] [v_div; (call [113%N; 117%N; 111%N; 116%N] [v_num; v_div])])]) (fun v_m => (ifte (bind (call [60%N] [v_num; (lit (0)%Z); v_div]) (fun v_and__1 => (ifte v_and__1 (call [62%N] [v_m; (lit (0)%Z)]) v_and__1))) (call [45%N] [v_m]) v_m))).
+
+Definition c20_core_mod (R : Type) (lit : Z -> R) (call : str -> list R -> R) (ifte : R -> R -> R -> R) (bind : R -> (R -> R) -> R) (v_num v_div : R) : R :=
+  (call [45%N] [v_num; (call [42%N] [v_div; (call [109%N; 97%N; 116%N; 104%N; 47%N; 102%N; 108%N; 111%N; 111%N; 114%N] [(call [47%N] [v_num; v_div])])])]).
+
+Definition c20_core_inc (R : Type) (lit : Z -> R) (call : str -> list R -> R) (ifte : R -> R -> R -> R) (bind : R -> (R -> R) -> R) (v_x : R) : R :=
+  (call [43%N] [v_x; (lit (1)%Z)]).
+
+Definition c20_core_dec (R : Type) (lit : Z -> R) (call : str -> list R -> R) (ifte : R -> R -> R -> R) (bind : R -> (R -> R) -> R) (v_x : R) : R :=
+  (call [45%N] [v_x; (lit (1)%Z)]).
+
+Definition c20_core_incq (R : Type) (lit : Z -> R) (call : str -> list R -> R) (ifte : R -> R -> R -> R) (bind : R -> (R -> R) -> R) (v_x : R) : R :=
+  (call [43%N] [v_x; (lit (1)%Z)]).
+
+Definition c20_core_decq (R : Type) (lit : Z -> R) (call : str -> list R -> R) (ifte : R -> R -> R -> R) (bind : R -> (R -> R) -> R) (v_x : R) : R :=
+  (call [45%N] [v_x; (lit (1)%Z)]).
+
+Definition c20_core_abs (R : Type) (lit : Z -> R) (call : str -> list R -> R) (ifte : R -> R -> R -> R) (bind : R -> (R -> R) -> R) (v_x : R) : R :=
+  (call [112%N; 121%N; 116%N; 104%N; 111%N; 110%N; 47%N; 97%N; 98%N; 115%N] [v_x]).
+
+Definition c20_core_zerop (R : Type) (lit : Z -> R) (call : str -> list R -> R) (ifte : R -> R -> R -> R) (bind : R -> (R -> R) -> R) (v_x : R) : R :=
+  (call [61%N] [(lit (0)%Z); v_x]).
+
+Definition c20_core_inline_flags : list (str * bool) := [
+  ([43%N], false);
+  ([45%N], false);
+  ([42%N], false);
+  ([47%N], false);
+  ([113%N; 117%N; 111%N; 116%N], false);
+  ([114%N; 101%N; 109%N], false);
+  ([109%N; 111%N; 100%N], false);
+  ([105%N; 110%N; 99%N], true);
+  ([100%N; 101%N; 99%N], true);
+  ([105%N; 110%N; 99%N; 39%N], true);
+  ([100%N; 101%N; 99%N; 39%N], true);
+  ([97%N; 98%N; 115%N], true);
+  ([122%N; 101%N; 114%N; 111%N; 63%N], true)
+].
+
+(* operator.<name> -> (Python AST operator, operand order: 0 = (arg1 op arg2), 1 = swapped)
+   operators: 0=Add, 1=Sub, 2=Mult, 3=Div, 4=FloorDiv, 5=Mod, 6=Pow, 7=LShift, 8=RShift, 9=BitOr, 10=BitXor, 11=BitAnd, 12=MatMult, 13=Lt, 14=LtE, 15=Eq, 16=NotEq, 17=Gt, 18=GtE *)
+Definition c20_opt_ops : list (str * (N * N)) := [
+  ([97%N; 100%N; 100%N], (0%N, 0%N));
+  ([97%N; 110%N; 100%N; 95%N], (11%N, 0%N));
+  ([102%N; 108%N; 111%N; 111%N; 114%N; 100%N; 105%N; 118%N], (4%N, 0%N));
+  ([108%N; 115%N; 104%N; 105%N; 102%N; 116%N], (7%N, 0%N));
+  ([109%N; 111%N; 100%N], (5%N, 0%N));
+  ([109%N; 117%N; 108%N], (2%N, 0%N));
+  ([109%N; 97%N; 116%N; 109%N; 117%N; 108%N], (12%N, 0%N));
+  ([111%N; 114%N; 95%N], (9%N, 0%N));
+  ([112%N; 111%N; 119%N], (6%N, 0%N));
+  ([114%N; 115%N; 104%N; 105%N; 102%N; 116%N], (8%N, 0%N));
+  ([115%N; 117%N; 98%N], (1%N, 0%N));
+  ([116%N; 114%N; 117%N; 101%N; 100%N; 105%N; 118%N], (3%N, 0%N));
+  ([120%N; 111%N; 114%N], (10%N, 0%N));
+  ([108%N; 116%N], (13%N, 0%N));
+  ([108%N; 101%N], (14%N, 0%N));
+  ([101%N; 113%N], (15%N, 0%N));
+  ([110%N; 101%N], (16%N, 0%N));
+  ([103%N; 116%N], (17%N, 0%N));
+  ([103%N; 101%N], (18%N, 0%N))
+].
+
+(* ---- C14: importer.py (harness/tr/tr_importer.py) ---- *)
+Definition importer_magic : list N := [125%N; 4%N; 13%N; 10%N].
+Definition importer_slices : list (N * N) := [(0%N, 4%N); (4%N, 8%N); (8%N, 12%N); (12%N, 0%N)].
+Definition importer_header_checks : list (N * str) := [
+  (1%N, [73%N; 109%N; 112%N; 111%N; 114%N; 116%N; 69%N; 114%N; 114%N; 111%N; 114%N]);
+  (2%N, [69%N; 79%N; 70%N; 69%N; 114%N; 114%N; 111%N; 114%N]);
+  (3%N, [73%N; 109%N; 112%N; 111%N; 114%N; 116%N; 69%N; 114%N; 114%N; 111%N; 114%N]);
+  (4%N, [69%N; 79%N; 70%N; 69%N; 114%N; 114%N; 111%N; 114%N]);
+  (5%N, [73%N; 109%N; 112%N; 111%N; 114%N; 116%N; 69%N; 114%N; 114%N; 111%N; 114%N])
+].
+Definition importer_write_layout : list N := [1%N; 2%N; 3%N; 4%N].
+Definition importer_long_codec : list N := [4294967295%N; 4%N; 1%N; 1%N].
+Definition importer_caught : list str := [
+  [69%N; 79%N; 70%N; 69%N; 114%N; 114%N; 111%N; 114%N];
+  [73%N; 109%N; 112%N; 111%N; 114%N; 116%N; 69%N; 114%N; 114%N; 111%N; 114%N];
+  [79%N; 83%N; 69%N; 114%N; 114%N; 111%N; 114%N]
+].
+Definition importer_exec_in_try : bool := false.
+(* C12/C13 (harness/tr/tr_conc.py) *)
+Definition atom_cas_mode : N := 1%N.
+Definition delay_deref_mode : N := 1%N.
+Definition promise_shape : N := 1%N.
